@@ -155,6 +155,31 @@ def reach(cls, spec, direct, pts, rng):
     return first
 
 
+def held_data_problem(obj, spec):
+    """after a history of API calls: does the object HOLD the data of `spec` (table, reference values, T_ref, range)?  Returns a
+    description of the first difference or None.  Reference values merged in through update() come back as
+    value*T_ref/T_ref, so they are compared to 1e-12 relative."""
+    if spec['kind'] == 'raw':
+        return None
+    table = dict((float(p[0]), float(p[1])) for p in spec['pts'])
+    held = dict((float(k), float(v)) for k, v in (getattr(obj, 'ND_Cp_data', None) or {}).items())
+    if held != table:
+        extra = sorted(set(held) - set(table))
+        return 'table differs: extra temperatures %r, missing %r, changed %r' % (
+            extra, sorted(set(table) - set(held)), sorted(t for t in table if t in held and held[t] != table[t]))
+    for name, want in (('ND_H_ref', spec['href']), ('ND_S_ref', spec['sref'])):
+        have = getattr(obj, name, None)
+        if (have is None) != (want is None) or (want is not None and abs(float(have) - want) > 1e-12 * max(1.0, abs(want))):
+            return '%s is %r, given %r' % (name, have, want)
+    if float(obj.T_ref) != float(spec['tref']):
+        return 'T_ref is %r, given %r' % (obj.T_ref, spec['tref'])
+    r = obj.get_range()
+    want = None if spec['range'] is None else (float(spec['range'][0]), float(spec['range'][1]))
+    if (None if r is None else (float(r[0]), float(r[1]))) != want:
+        return 'range is %r, given %r' % (r, want)
+    return None
+
+
 def eval_impl(obj, which, T, stats=None):
     """canonical outcome of obj.get_X(T): {'ok': float, 'warn': bool} | {'err': class, 'warn': bool};
     warn = an IncompleteDataWarning was issued."""
